@@ -257,7 +257,11 @@ impl Availability {
 }
 
 // ===================================================================== real types of accept.rs
-//@extract_const file=actix-server/src/accept.rs name=TIMEOUT_DURATION_ON_ERROR ensures="TIMEOUT_DURATION_ON_ERROR.ns() == 510 * 1_000_000"
+/// "the roughly 500 ms back-off" of the property (C05), read with a factor of two: the contracts do not pin the crate's
+/// 500 / 510 ms
+pub open spec fn backoff_lo() -> nat { 250 * 1_000_000 }
+pub open spec fn backoff_hi() -> nat { 1000 * 1_000_000 }
+//@extract_const file=actix-server/src/accept.rs name=TIMEOUT_DURATION_ON_ERROR ensures="backoff_lo() <= TIMEOUT_DURATION_ON_ERROR.ns() <= backoff_hi()"
 //@extract_type file=actix-server/src/accept.rs item="struct ServerSocketInfo"
 //@extract_type file=actix-server/src/accept.rs item="struct Accept"
 
@@ -758,10 +762,10 @@ impl Accept {
         // accepting stops only when no worker has capacity, the backlog is drained, or the listener has just been
         // put into back-off (so a per-connection error never ends the loop)   [C03,C05]
         !final(self).has_capacity() || final(sockets)@[token as int].lst.drained() || final(sockets)@[token as int].timeout.is_some(),
-        // a back-off that starts here arms the poll timeout with at most 510 ms and deregisters the listener  [C05]
+        // a back-off that starts here arms the poll timeout with "roughly 500 ms" at most and deregisters the listener  [C05]
         final(sockets)@[token as int].timeout.is_some() ==> final(self).timeout.is_some() && !final(sockets)@[token as int].lst.registered(),
         old(sockets)@[token as int].timeout.is_none() && final(sockets)@[token as int].timeout.is_some()
-            ==> final(self).timeout.unwrap().ns() <= 510 * 1_000_000,
+            ==> final(self).timeout.unwrap().ns() <= backoff_hi(),
         final(sockets)@[token as int].timeout.is_none() ==> old(sockets)@[token as int].timeout.is_none() && final(self).timeout == old(self).timeout
             && final(sockets)@[token as int].lst.registered() == old(sockets)@[token as int].lst.registered(),
 //@insert after="Ok(io) => {"
@@ -771,9 +775,9 @@ impl Accept {
                     // an accepted connection is handed to the dispatcher, exactly once — never dropped on the floor   [C01]
                     assert(r24_trace.len() == t0 + 1);   // [C01]
 //@insert after="self.set_timeout(TIMEOUT_DURATION_ON_ERROR);"
-                    assert(info.timeout.is_some() && info.timeout.unwrap().t() == now_spec() + 500 * 1_000_000);   // [C05] ~500 ms back-off
+                    assert(info.timeout.is_some() && now_spec() + backoff_lo() <= info.timeout.unwrap().t() <= now_spec() + backoff_hi());   // [C05] "roughly 500 ms" back-off
                     assert(!info.lst.registered());   // [C05]
-                    assert(self.timeout.is_some() && self.timeout.unwrap().ns() <= 510 * 1_000_000);   // [C05] the poll wakes up in time
+                    assert(self.timeout.is_some() && self.timeout.unwrap().ns() <= backoff_hi());   // [C05] the poll wakes up in time
 //@loop 1
         invariant
             self.wf(),
